@@ -1,5 +1,5 @@
 (* C17 correspondence: race-detector scenarios run by harness/c17 against the real services. *)
-From Verif Require Export Lib.Base Lib.Lockset Lib.LocksetX Gen.C17_Extracted Model.C17_Snapshot Model.C17_Cache.
+From Verif Require Export Lib.Base Lib.Lockset Lib.LocksetX Lib.Atomic Gen.C17_Extracted Model.C17_Snapshot Model.C17_Cache.
 From Coq Require Export String.
 
 Record case := {
@@ -110,6 +110,11 @@ Definition tree_report :=
          let '(bad, cf) := report sk sg g e in
          (n, analysis_ok sk sg g e, bad, nodup N.eq_dec (map (fun '((f1, _, _, _), _) => f1) cf),
           discipline_ok sk sg (graph_accesses g e), lock_order_ok g e)) services.
+
+(* per service: the derived (read, write) pairs that the atomicity check rejects (Lib/Atomic.v): the write of a
+   value computed from a read of the same field, with the field's guard released in between *)
+Definition tree_atomic :=
+  map (fun '(n, g, e, sk, sg) => (n, atomic_bad sk sg g e (pairs_of n derived_pairs))) services.
 
 (* the (field, mutex) guard pairs of every service *)
 Definition tree_guards :=
